@@ -124,9 +124,38 @@ def gen_readonly(rng, state):
 
 def gen_edit_any(rng, state):
     tree = state["tree"]
+    orig = state.setdefault("orig", {})
+    dirty = state.setdefault("dirty", set())
+    if dirty and rng.random() < 0.3:
+        # bring a removed / altered file back to exactly its original state
+        f = sorted(dirty)[rng.randrange(len(dirty))]
+        dirty.discard(f)
+        if f in orig and os.path.dirname(f) in [""] + gen.tree_dirs(tree):
+            tree[f] = orig[f]
+            op = {"op": "write", "path": f, "c": orig[f].get("c"), "fault": "restore_content"}
+            if orig[f].get("m") is not None:
+                op["m"] = orig[f]["m"]
+            return op
+    e = _gen_edit_any(rng, state)
+    if e and e.get("op") in ("flip", "rewrite", "append", "truncate", "remove"):
+        f = e["path"]
+        src = tree.get(f) or state.get("_last_removed")
+        if f not in orig and src is not None and src.get("t") == "f":
+            orig[f] = src
+        if f in orig:
+            dirty.add(f)
+    return e
+
+
+def _gen_edit_any(rng, state):
+    tree = state["tree"]
     k = rng.random()
     if k < 0.75:
-        return scen.gen_edit(rng, tree)
+        before = dict(tree)
+        e = scen.gen_edit(rng, tree)
+        if e and e.get("op") == "remove":
+            state["_last_removed"] = before.get(e["path"])
+        return e
     files = gen.tree_files(tree)
     dirs = gen.tree_dirs(tree)
     if k < 0.85 and files:
